@@ -87,7 +87,11 @@ class _TransportNotifyMiddleware:
 
     def process_request(self, req: falcon.Request, resp: falcon.Response) -> None:
         """Bind the server to ``HTTP`` on the first request handled here."""
-        if self._server.transport_kind is None:
+        # ``is not HTTP`` rather than ``is None``: a server that was bound to
+        # another transport before (several transports fronting one RpcServer)
+        # must be re-bound, or the HTTP dispatch runs without its start hook
+        # and with ``transport_kind`` still naming the previous transport.
+        if self._server.transport_kind is not TransportKind.HTTP:
             self._server._notify_transport(TransportKind.HTTP, frozenset())
 
 
